@@ -1,5 +1,9 @@
 import SgVerif.C39.Lemmas
 import SgVerif.C39.Commute
+import SgVerif.C39.SemGroups
+import SgVerif.C39.Assembly
+import SgVerif.C39.WorldLts
+import SgVerif.C38.Props
 /-
 C39 — Declared-independent transitions commute; the dependency relation is symmetric.
 Property theorems only.  `depends`, `lut`, `evalAction` come from the GENERATED module Gen.lean (the table is what the
@@ -71,30 +75,8 @@ theorem indep_commute_mutex (s : State) (t1 t2 : Base)
     (hd : depends (.base t1) (.base t2) = some false) :
     enabled (exec s t1) t2 = true ∧ enabled (exec s t2) t1 = true ∧
     wf (exec s t1) t2 = true ∧ wf (exec s t2) t1 = true ∧
-    (exec (exec s t1) t2).equiv (exec (exec s t2) t1) := by
-  have ha' : t2.aid ≠ t1.aid := fun e => ha e.symm
-  rw [enabled_mutex _ _ h1] at e1
-  rw [enabled_mutex _ _ h2] at e2
-  rw [wf_mutex _ _ h1] at w1
-  rw [wf_mutex _ _ h2] at w2
-  rw [enabled_mutex _ _ h2, enabled_mutex _ _ h1, wf_mutex _ _ h2, wf_mutex _ _ h1]
-  by_cases hm : t1.mutex = t2.mutex
-  · have hi := mutexIndepSame_of_depends t1 t2 h1 h2 ha hm hd
-    rw [hm] at e1 w1
-    obtain ⟨c1, c2, c3, c4, c5, c6, c7⟩ := mutex_obj_commute (s.mutex t2.mutex) t1.kind t2.kind t1.aid t2.aid ha h1 h2 hi e1 e2 w1 w2
-    simp only [exec_mutex _ _ h1, exec_mutex _ _ h2, hm, upd_same]
-    refine ⟨c1, c2, c3, c4, ?_, fun _ => rfl, fun _ => rfl, ?_, fun _ => rfl⟩
-    · intro m
-      by_cases hx : m = t2.mutex <;> simp [upd, hx, c5]
-    · intro a
-      by_cases hx1 : a = t1.aid <;> by_cases hx2 : a = t2.aid <;> simp [upd, hx1, hx2, ha, ha', c6, c7]
-  · have hm' : ¬ t2.mutex = t1.mutex := fun e => hm e.symm
-    simp only [exec_mutex _ _ h1, exec_mutex _ _ h2, upd_other _ _ _ _ hm, upd_other _ _ _ _ hm']
-    refine ⟨e2, e1, w2, w1, ?_, fun _ => rfl, fun _ => rfl, ?_, fun _ => rfl⟩
-    · intro m
-      by_cases hx1 : m = t1.mutex <;> by_cases hx2 : m = t2.mutex <;> simp [upd, hx1, hx2, hm, hm']
-    · intro a
-      by_cases hx1 : a = t1.aid <;> by_cases hx2 : a = t2.aid <;> simp [upd, hx1, hx2, ha, ha']
+    (exec (exec s t1) t2).equiv (exec (exec s t2) t1) :=
+  indep_commute_mutex_aux s t1 t2 h1 h2 ha e1 e2 w1 w2 hd
 
 /-- without `wf` the mutex statement is false at model level: an actor queued on a mutex that issues UNLOCK
 (impossible through s4u::Mutex, whose lock() is ASYNC_LOCK immediately followed by WAIT) becomes the owner if the real
@@ -115,31 +97,12 @@ theorem indep_commute_sem (s : State) (t1 t2 : Base)
     (e1 : enabled s t1 = true) (e2 : enabled s t2 = true)
     (hd : depends (.base t1) (.base t2) = some false) :
     enabled (exec s t1) t2 = true ∧ enabled (exec s t2) t1 = true ∧
-    (exec (exec s t1) t2).equiv (exec (exec s t2) t1) := by
-  rw [enabled_sem _ _ h1] at e1
-  rw [enabled_sem _ _ h2] at e2
-  rw [enabled_sem _ _ h2, enabled_sem _ _ h1]
-  by_cases hm : t1.sem = t2.sem
-  · have hi := semIndepSame_of_depends t1 t2 h1 h2 ha hm hd
-    rw [hm] at e1
-    obtain ⟨c1, c2, c3⟩ := sem_obj_commute (s.sem t2.sem) t1.kind t2.kind t1.aid t2.aid ha h1 h2 hi (hinv _) e1 e2
-    simp only [exec_sem _ _ h1, exec_sem _ _ h2, hm, upd_same]
-    refine ⟨c1, c2, fun _ => rfl, ?_, fun _ => rfl, fun _ => rfl, fun _ => rfl⟩
-    intro m
-    by_cases hx : m = t2.sem <;> simp [upd, hx, c3]
-  · have hm' : ¬ t2.sem = t1.sem := fun e => hm e.symm
-    simp only [exec_sem _ _ h1, exec_sem _ _ h2, upd_other _ _ _ _ hm, upd_other _ _ _ _ hm']
-    refine ⟨e2, e1, fun _ => rfl, ?_, fun _ => rfl, fun _ => rfl, fun _ => rfl⟩
-    intro m
-    by_cases hx1 : m = t1.sem <;> by_cases hx2 : m = t2.sem <;> simp [upd, hx1, hx2, hm, hm']
+    (exec (exec s t1) t2).equiv (exec (exec s t2) t1) :=
+  indep_commute_sem_aux s t1 t2 h1 h2 ha hinv e1 e2 hd
 
 theorem sem_inv_preserved_all (s : State) (t : Base) (h : isSemKind t.kind = true) (hinv : ∀ m, (s.sem m).inv) :
-    ∀ m, ((exec s t).sem m).inv := by
-  intro m
-  rw [exec_sem _ _ h]
-  by_cases hx : m = t.sem
-  · simp only [hx, upd_same]; exact sem_inv_preserved _ _ _ (hinv _)
-  · simp only [upd_other _ _ _ _ hx]; exact hinv m
+    ∀ m, ((exec s t).sem m).inv :=
+  sem_inv_preserved_all_aux s t h hinv
 
 /-- **Barrier group** — every pair of BARRIER_{ASYNC_LOCK,WAIT} transitions of different actors, on the same or on
 different barriers, any expected count (0 included), any waiting / granted lists.  Since the repair of the cell
@@ -149,23 +112,8 @@ theorem indep_commute_bar (s : State) (t1 t2 : Base)
     (e1 : enabled s t1 = true) (e2 : enabled s t2 = true)
     (hd : depends (.base t1) (.base t2) = some false) :
     enabled (exec s t1) t2 = true ∧ enabled (exec s t2) t1 = true ∧
-    (exec (exec s t1) t2).equiv (exec (exec s t2) t1) := by
-  rw [enabled_bar _ _ h1] at e1
-  rw [enabled_bar _ _ h2] at e2
-  rw [enabled_bar _ _ h2, enabled_bar _ _ h1]
-  by_cases hm : t1.bar = t2.bar
-  · have hi := barIndepSame_of_depends t1 t2 h1 h2 ha hm hd
-    rw [hm] at e1
-    obtain ⟨c1, c2, c3⟩ := bar_obj_commute (s.bar t2.bar) t1.kind t2.kind t1.aid t2.aid ha h1 h2 hi e1 e2
-    simp only [exec_bar _ _ h1, exec_bar _ _ h2, hm, upd_same]
-    refine ⟨c1, c2, fun _ => rfl, fun _ => rfl, ?_, fun _ => rfl, fun _ => rfl⟩
-    intro m
-    by_cases hx : m = t2.bar <;> simp [upd, hx, c3]
-  · have hm' : ¬ t2.bar = t1.bar := fun e => hm e.symm
-    simp only [exec_bar _ _ h1, exec_bar _ _ h2, upd_other _ _ _ _ hm, upd_other _ _ _ _ hm']
-    refine ⟨e2, e1, fun _ => rfl, fun _ => rfl, ?_, fun _ => rfl, fun _ => rfl⟩
-    intro m
-    by_cases hx1 : m = t1.bar <;> by_cases hx2 : m = t2.bar <;> simp [upd, hx1, hx2, hm, hm']
+    (exec (exec s t1) t2).equiv (exec (exec s t2) t1) :=
+  indep_commute_bar_aux s t1 t2 h1 h2 ha e1 e2 hd
 
 /-- **Regression (repaired defect `barrier-lock-lock-declared-independent`).**  Barrier of 2 with one actor (3) already
 waiting; actors 1 and 2 both about to lock: whoever locks first trips the barrier together with 3 and the other one is
@@ -311,5 +259,146 @@ example :     -- ... and that state satisfies the queue hypothesis `hq` of the t
   · have hc : c = 8 := by simpa [s, hm] using h
     subst hc; simp [s]
   · simp [s, hm] at h
+
+
+/-! ## `indep_commute` over ALL pairs of kinds (World = mutexes, semaphores, barriers, condition variables, mailboxes,
+actor table; MC-mode semantics, unbounded queues, any number of actors)
+
+Full-strength statement (DESIGN §8 C39), FALSE on the current table because of ONE cell:
+  ∀ w t₁ t₂, w.inv → aid t₁ ≠ aid t₂ → fireable w t₁ → fireable w t₂ → depends t₁ t₂ = some false →
+     fireable (exec w t₁) t₂ ∧ fireable (exec w t₂) t₁ ∧ exec (exec w t₁) t₂ ≈ exec (exec w t₂) t₁
+`condvar_async_lock_pair_counterexample`: two CONDVAR_ASYNC_LOCK on ONE condition variable (with two mutexes) are
+`ALWAYS_INDEP` in the table but enqueue their issuers in execution order (finding
+`condvar-async-lock-pair-declared-independent`, replayed on the real implementation).  `indep_commute` below is the
+statement with exactly that cell excluded (`calPair`).  `fireable` = issuer alive ∧ observer `is_enabled()` ∧ no kernel
+`xbt_assert` (unlock / condvar wait by a non-owner) ∧ the label describes the state (comm number, recorded peers, fresh
+child pid, no timeout).  `≈` = equality location by location. -/
+open Full
+
+/-- **Declared-independent transitions commute — every pair of kinds** (30 × 30 cells of the generated table, every arm,
+all parameters), for every state of the World satisfying the semaphore invariant, any queues, any number of actors:
+both stay fireable (neither disables the other, no kernel assertion appears, labels stay valid) and the two orders reach
+the same state.  Only hypothesis on the cell: it is not `calPair` (two CONDVAR_ASYNC_LOCK on one condvar: counterexample
+below).  Kinds the checker refuses (`depends = none`: *_NOMC, unwrapped ANY) are excluded by `hd` itself.
+Proof: footprint theorem (`Full.disjoint_commute`) for the cross-group cells (`Full.tag_noWrite`, finite table
+`Full.family_table`), non-co-enabledness for the ACTOR_JOIN / ACTOR_CREATE rows, and the five family theorems. -/
+theorem indep_commute (w : World) (t1 t2 : Base) (hinv : w.inv) (ha : t1.aid ≠ t2.aid)
+    (f1 : fireable w t1 = true) (f2 : fireable w t2 = true)
+    (hd : depends (.base t1) (.base t2) = some false) (hx : calPair t1 t2 = false) :
+    fireable (Full.exec w t1) t2 = true ∧ fireable (Full.exec w t2) t1 = true ∧
+    (Full.exec (Full.exec w t1) t2).equiv (Full.exec (Full.exec w t2) t1) :=
+  indep_commute_aux w t1 t2 hinv ha f1 f2 hd hx
+
+/-- the footprint argument, on its own: two transitions none of which writes a location the other reads or writes
+(`Full.rd`, `Full.wr`: lists of locations per kind) commute and leave each other's fireability unchanged — whatever
+the table says.  Used for all cross-group cells (mutex × sem, comm × mutex, …). -/
+theorem footprint_commute (w : World) (t1 t2 : Base) (h21 : noWriteInto t2 t1) (h12 : noWriteInto t1 t2) :
+    fireable (Full.exec w t1) t2 = fireable w t2 ∧ fireable (Full.exec w t2) t1 = fireable w t1 ∧
+    (Full.exec (Full.exec w t1) t2).equiv (Full.exec (Full.exec w t2) t1) :=
+  disjoint_commute w t1 t2 h21 h12
+
+/-- cross-group cells: whenever the shared locations of two kinds carry different tags (finite table `tagDisj`) the
+footprints of two transitions of different actors are disjoint, for all parameters -/
+theorem cross_group_footprints_disjoint (t1 t2 : Base) (ha : t1.aid ≠ t2.aid) (h : tagDisj t1.kind t2.kind = true) :
+    noWriteInto t2 t1 ∧ noWriteInto t1 t2 :=
+  tag_noWrite t1 t2 ha h
+
+/-- the World invariant (acquisitions of a semaphore only queue up at value 0) is preserved by every transition -/
+theorem world_inv_preserved (w : World) (t : Base) (hinv : w.inv) : (Full.exec w t).inv :=
+  inv_preserved w t hinv
+
+/-- a World for the examples: everything empty, actors 1..4 exist with 5 transitions left each -/
+def w0 : World :=
+  { sync := { mutex := fun _ => ⟨none, []⟩, sem := fun _ => ⟨0, [], []⟩, bar := fun _ => ⟨0, [], []⟩, ret := fun _ => 0, dead := fun _ => false },
+    cvW := fun _ => [], cvG := fun _ => [], sends := fun _ => [], recvs := fun _ => [],
+    ex := fun a => decide (1 ≤ a ∧ a ≤ 4), left := fun _ => 5, nextPid := 5 }
+
+/-- **Counterexample (finding `condvar-async-lock-pair-declared-independent`).**  Actor 1 owns mutex 0, actor 2 owns
+mutex 1, both are about to wait on condition variable 0 (CONDVAR_ASYNC_LOCK).  The table answers "independent"
+(`ALWAYS_INDEP`), both are fireable, but the waiting queue of the condvar is [1,2] in one order and [2,1] in the other:
+a later CONDVAR_SIGNAL grants actor 1 in one case and actor 2 in the other.  Replayed on the real implementation
+(props/C39/witness_condvar.cpp: outcomes `1|0|` vs `0|1|`; dpor / sdpor / odpor explore one execution and miss the other). -/
+theorem condvar_async_lock_pair_counterexample :
+    let w : World := { w0 with sync := { w0.sync with mutex := fun m => if m = 0 then ⟨some 1, []⟩ else if m = 1 then ⟨some 2, []⟩ else ⟨none, []⟩ } }
+    let t1 : Base := { kind := .CONDVAR_ASYNC_LOCK, aid := 1, condvar := 0, mutex := 0 }
+    let t2 : Base := { kind := .CONDVAR_ASYNC_LOCK, aid := 2, condvar := 0, mutex := 1 }
+    let sg : Base := { kind := .CONDVAR_SIGNAL, aid := 3, condvar := 0 }
+    lut .CONDVAR_ASYNC_LOCK .CONDVAR_ASYNC_LOCK = .ALWAYS_INDEP ∧ depends (.base t1) (.base t2) = some false ∧
+    fireable w t1 = true ∧ fireable w t2 = true ∧ calPair t1 t2 = true ∧
+    (Full.exec (Full.exec w t1) t2).cvW 0 = [1, 2] ∧ (Full.exec (Full.exec w t2) t1).cvW 0 = [2, 1] ∧
+    (Full.exec (Full.exec (Full.exec w t1) t2) sg).cvG 0 = [1] ∧ (Full.exec (Full.exec (Full.exec w t2) t1) sg).cvG 0 = [2] := by
+  decide
+
+-- non-vacuity of `indep_commute`: a cross-group pair, a comm pair on one mailbox, a condvar / mutex pair on one mutex
+example :       -- MUTEX_UNLOCK (hand-off to the queue) × SEM_ASYNC_LOCK
+    let w : World := { w0 with sync := { w0.sync with mutex := fun _ => ⟨some 1, [3]⟩ } }
+    let t1 : Base := { kind := .MUTEX_UNLOCK, aid := 1, mutex := 0 }
+    let t2 : Base := { kind := .SEM_ASYNC_LOCK, aid := 2, sem := 0 }
+    fireable w t1 = true ∧ fireable w t2 = true ∧ depends (.base t1) (.base t2) = some false ∧ calPair t1 t2 = false ∧
+    (Full.exec (Full.exec w t1) t2).sync.mutex 0 = ⟨some 3, []⟩ ∧ (Full.exec (Full.exec w t1) t2).sync.sem 0 = ⟨0, [2], []⟩ := by decide
+example : w0.inv := by intro m; simp [w0, SemSt.inv]
+example :       -- COMM_ASYNC_SEND × COMM_TEST on mailbox 0: the tested comm (0,0) already has its sender (3), the send is comm (0,1)
+    let w : World := { w0 with sends := fun x => if x = 0 then [3] else [], recvs := fun _ => [] }
+    let t1 : Base := { kind := .COMM_ASYNC_SEND, aid := 1, mbox := 0, comm := 1 }
+    let t2 : Base := { kind := .COMM_TEST, aid := 2, mbox := 0, comm := 0, sender := 3, receiver := -1 }
+    fireable w t1 = true ∧ fireable w t2 = true ∧ depends (.base t1) (.base t2) = some false ∧
+    (Full.exec (Full.exec w t1) t2).sends 0 = [3, 1] ∧ (Full.exec (Full.exec w t1) t2).sync.ret 2 = 0 := by decide
+example :       -- CONDVAR_ASYNC_LOCK (releases mutex 0 to the queue) × CONDVAR_WAIT of a granted actor (lock_async on mutex 0)
+    let w : World := { w0 with sync := { w0.sync with mutex := fun _ => ⟨some 1, [4]⟩ }, cvG := fun _ => [2] }
+    let t1 : Base := { kind := .CONDVAR_ASYNC_LOCK, aid := 1, condvar := 0, mutex := 0 }
+    let t2 : Base := { kind := .CONDVAR_WAIT, aid := 2, condvar := 0, mutex := 0, granted := true }
+    fireable w t1 = true ∧ fireable w t2 = true ∧ depends (.base t1) (.base t2) = some false ∧ calPair t1 t2 = false ∧
+    (Full.exec (Full.exec w t1) t2).sync.mutex 0 = ⟨some 4, [2]⟩ ∧ (Full.exec (Full.exec w t2) t1).sync.mutex 0 = ⟨some 4, [2]⟩ := by decide
+example :       -- footprints: a semaphore transition and a mailbox transition never meet
+    tagDisj .SEM_UNLOCK .COMM_ASYNC_RECV = true ∧ tagDisj .MUTEX_UNLOCK .MUTEX_ASYNC_LOCK = false := by decide
+
+
+/-! ## Link to C38: the commutation hypothesis `LTS.Commutes` on the World -/
+
+/-- **C38's hypothesis `LTS.Commutes` discharged on the World** for the relation `crossDep` (independent = different
+actors, no ACTOR_JOIN / ACTOR_CREATE, kinds with tag-disjoint footprints: all cross-group cells and the read-only pairs of a
+group): symmetric, "neither enables nor disables" with the labels included, equal states — in every state. -/
+theorem world_commutes_cross : McRef.LTS.Commutes worldLTS crossDep := Full.world_commutes_cross
+
+/-- hence (C38 `equiv_traces_same_outcome`): two executions of the World that differ by swaps of adjacent cross-group
+transitions reach the same state (or are both refused), from every state -/
+theorem world_equiv_traces_same_state {u v : List Base} (h : McRef.TraceEq crossDep u v) (w : World) :
+    worldLTS.run w u = worldLTS.run w v :=
+  C38.equiv_traces_same_outcome worldLTS crossDep Full.world_commutes_cross h w
+
+/-- for the WHOLE table (minus `calPair`), the "commute" and "do not disable" parts of `LTS.Commutes`, with EQUAL states.
+Missing for `Commutes worldLTS (table)`: "does not enable" inside the families; it is FALSE for the cells
+RANDOM × ACTOR_JOIN and ACTOR_CREATE × ACTOR_JOIN when the join targets the issuer (`random_join_enables_counterexample`). -/
+theorem world_indep_comm (w : World) (t1 t2 : Base) (hinv : w.inv) (ha : t1.aid ≠ t2.aid)
+    (f1 : worldLTS.enabled w t1 = true) (f2 : worldLTS.enabled w t2 = true)
+    (hd : depends (.base t1) (.base t2) = some false) (hx : calPair t1 t2 = false) :
+    worldLTS.enabled (worldLTS.exec w t1) t2 = true ∧ worldLTS.enabled (worldLTS.exec w t2) t1 = true ∧
+    worldLTS.exec (worldLTS.exec w t1) t2 = worldLTS.exec (worldLTS.exec w t2) t1 :=
+  Full.world_indep_comm w t1 t2 hinv ha f1 f2 hd hx
+
+/-- **"does not enable" fails for RANDOM × ACTOR_JOIN** (model level; the strengthening C38 needs, not part of the C39
+statement, which is about co-enabled transitions).  Actor 1 is about to do its LAST transition, a RANDOM; actor 2 waits to
+join it.  The table says independent (`rule_all(RANDOM, ALWAYS_INDEP)` overwrites the cell, like it did for RANDOM ×
+ACTOR_CREATE), the join is not fireable before the RANDOM and fireable after it.  Same for ACTOR_CREATE as last transition
+(cell EVAL_T2_ACTOR_CREATE only looks at the created child). -/
+theorem random_join_enables_counterexample :
+    let w : World := { w0 with left := fun a => if a = 1 then 1 else 5 }
+    let t1 : Base := { kind := .RANDOM, aid := 1, min := 0, max := 1 }
+    let c1 : Base := { kind := .ACTOR_CREATE, aid := 1, child := 5 }
+    let t2 : Base := { kind := .ACTOR_JOIN, aid := 2, target := 1 }
+    depends (.base t1) (.base t2) = some false ∧ depends (.base c1) (.base t2) = some false ∧
+    fireable w t1 = true ∧ fireable w c1 = true ∧ fireable w t2 = false ∧
+    fireable (Full.exec w t1) t2 = true ∧ fireable (Full.exec w c1) t2 = true := by decide
+
+-- non-vacuity of `world_commutes_cross` / `world_equiv_traces_same_state`: a lock and a send swapped around a test
+example :
+    let a : Base := { kind := .MUTEX_ASYNC_LOCK, aid := 1, mutex := 0 }
+    let b : Base := { kind := .COMM_ASYNC_SEND, aid := 2, mbox := 0, comm := 0 }
+    crossDep a b = false ∧ worldLTS.enabled w0 a = true ∧ worldLTS.enabled w0 b = true ∧
+    (worldLTS.run w0 [a, b]).isSome = true := by decide
+example : McRef.TraceEq crossDep
+    [{ kind := .MUTEX_ASYNC_LOCK, aid := 1, mutex := 0 }, { kind := .COMM_ASYNC_SEND, aid := 2, mbox := 0, comm := 0 }]
+    [{ kind := .COMM_ASYNC_SEND, aid := 2, mbox := 0, comm := 0 }, { kind := .MUTEX_ASYNC_LOCK, aid := 1, mutex := 0 }] :=
+  .swap _ _ [] (by decide)
 
 end SgVerif.C39
